@@ -33,12 +33,15 @@ type C17Case struct {
 	Lo     int64   `json:"lo,omitempty"`
 	Hi     int64   `json:"hi,omitempty"`
 	Step   int     `json:"step,omitempty"`
+	// MaskDst: the reuse/incr destination carries a mask (bit k set where Dst[k] is odd). The model says
+	// nothing about masked positions; all element types must still treat them alike.
+	MaskDst bool `json:"maskDst,omitempty"`
 }
 
 func init() { register("C17.xtype", func() Case { return &C17Case{} }) }
 
 func (c *C17Case) NTKey() string {
-	return fmt.Sprintf("%s|%s|%s|%s|%v|%v|%v|%v|%v", c.Fam, c.Op, c.Form, c.Mode, c.Same, c.Iter, c.Shape, c.A, c.Axes)
+	return fmt.Sprintf("%s|%s|%s|%s|%v|%v|%v|%v|%v|%v", c.Fam, c.Op, c.Form, c.Mode, c.Same, c.Iter, c.Shape, c.A, c.Axes, c.MaskDst)
 }
 
 func (c *C17Case) layout() Layout {
@@ -118,6 +121,12 @@ func (c *C17Case) Run() string {
 				}
 				_ = dd
 				e.Dst = &Opnd{Shape: c.Shape, Codes: c.Dst, L: Layout{Root: "rm"}}
+				if c.MaskDst {
+					e.Dst.Mask = make([]bool, len(c.Dst))
+					for i, v := range c.Dst {
+						e.Dst.Mask[i] = v%2 == 1
+					}
+				}
 			}
 			msg = e.Run()
 			if msg == "" && ewLast.Computed {
@@ -349,6 +358,14 @@ func TestC17(t *testing.T) {
 					cell(t, "C17", "C17.xtype", fmt.Sprintf("arith/%s/%s/%s/iter=%v", op, form, mode, iter), n, func(rt *rapid.T) Case {
 						return genC17(rt, "arith", op, form, mode, false, iter)
 					})
+					if mode == "incr" || mode == "reuse" {
+						// a masked destination: positions masked there are skipped by the iterator kernels of every type alike
+						cell(t, "C17", "C17.xtype", fmt.Sprintf("arith/%s/%s/%s/iter=%v/masked-dst", op, form, mode, iter), nCases(2, 30), func(rt *rapid.T) Case {
+							c := genC17(rt, "arith", op, form, mode, false, iter)
+							c.MaskDst = true
+							return c
+						})
+					}
 					if !iter {
 						// operands with exactly one element: every type's kernels have a branch of their own for them
 						cell(t, "C17", "C17.xtype", fmt.Sprintf("arith/%s/%s/%s/one-element", op, form, mode), nCases(2, 30), func(rt *rapid.T) Case {
